@@ -43,6 +43,7 @@ type c13World struct {
 	ep     map[[2]uint64]uint64 // (app, assetOut) -> extended pair id
 	height int64
 	aucHeavy bool // the case concentrates on auction flows
+	bmode    bool // TestC13B: asset 3 = ucmst, the ESM / refund / mismatched-coin ops are mixed in (c13b_test.go)
 }
 
 func c13U(n uint64) string { return fmt.Sprint(n) }
@@ -175,15 +176,28 @@ func c13NewWorld(t *testing.T, a *chain.App, base sdk.Context, tr *tracer) *c13W
 // c13Base builds, once, the configuration every case starts from: 2 apps, 3 assets, vault pairs,
 // funded users.  Everything the model needs to know about it is printed on the case line.
 func c13Base(t *testing.T, a *chain.App, ctx sdk.Context) (apps, assets []uint64, denom map[uint64]string, ep map[[2]uint64]uint64) {
+	return c13BaseCfg(t, a, ctx, false)
+}
+
+// cmstThird: asset 2 = uharbor, asset 3 = ucmst (the configuration collector/refund.go hard-codes)
+func c13BaseCfg(t *testing.T, a *chain.App, ctx sdk.Context, cmstThird bool) (apps, assets []uint64, denom map[uint64]string, ep map[[2]uint64]uint64) {
 	denom = map[uint64]string{}
 	ep = map[[2]uint64]uint64{}
 	a1 := addAsset(t, a, ctx, "CMDX", "ucmdx", 1000000, true, false)
-	a2 := addAsset(t, a, ctx, "CMST", "ucmst", 1000000, true, true)
-	a3 := addAsset(t, a, ctx, "HARBOR", "uharbor", 1000000, true, true)
+	n2, d2, n3, d3 := "CMST", "ucmst", "HARBOR", "uharbor"
+	if cmstThird {
+		n2, d2, n3, d3 = n3, d3, n2, d2
+	}
+	a2 := addAsset(t, a, ctx, n2, d2, 1000000, true, true)
+	a3 := addAsset(t, a, ctx, n3, d3, 1000000, true, true)
+	gov := a3
+	if cmstThird {
+		gov = a2
+	}
 	// the apps carry tokenmint data for the secondary (governance) asset: the auction closes burn / mint it
 	for i, name := range []string{"appone", "apptwo"} {
 		err := a.AssetKeeper.AddAppRecords(ctx, assettypes.AppData{Name: name, ShortName: name, MinGovDeposit: sdk.NewInt(0), GovTimeInSeconds: 0,
-			GenesisToken: []assettypes.MintGenesisToken{{AssetId: a3, GenesisSupply: sdk.NewInt(1000000000000000), IsGovToken: i == 0, Recipient: addrN(80).String()}}})
+			GenesisToken: []assettypes.MintGenesisToken{{AssetId: gov, GenesisSupply: sdk.NewInt(1000000000000000), IsGovToken: i == 0, Recipient: addrN(80).String()}}})
 		if err != nil {
 			t.Fatalf("AddAppRecords: %v", err)
 		}
@@ -193,12 +207,12 @@ func c13Base(t *testing.T, a *chain.App, ctx sdk.Context) (apps, assets []uint64
 				apps = append(apps, ap.Id)
 			}
 		}
-		if cls, err, _ := execMsg(a, ctx, &tokenminttypes.MsgMintNewTokensRequest{From: addrN(80).String(), AppId: apps[i], AssetId: a3}); cls != "ok" {
+		if cls, err, _ := execMsg(a, ctx, &tokenminttypes.MsgMintNewTokensRequest{From: addrN(80).String(), AppId: apps[i], AssetId: gov}); cls != "ok" {
 			t.Fatalf("MsgMintNewTokens: %s %v", cls, err)
 		}
 	}
 	assets = []uint64{a1, a2, a3}
-	denom[a1], denom[a2], denom[a3] = "ucmdx", "ucmst", "uharbor"
+	denom[a1], denom[a2], denom[a3] = "ucmdx", d2, d3
 	setPrice(a, ctx, a1, 2000000, true)
 	setPrice(a, ctx, a2, 1000000, true)
 	setPrice(a, ctx, a3, 1000000, true)
@@ -563,9 +577,10 @@ func (w *c13World) c13RandomOp(r *rng, stage int) {
 	}
 }
 
-func c13RunCase(t *testing.T, a *chain.App, base sdk.Context, tr *tracer, r *rng, ci int, emit bool, directed int, apps, assets []uint64,
+func c13RunCase(t *testing.T, a *chain.App, base sdk.Context, tr *tracer, r *rng, ci int, emit bool, directed int, bmode bool, apps, assets []uint64,
 	denom map[uint64]string, ep map[[2]uint64]uint64) {
 	w := c13NewWorld(t, a, base, tr)
+	w.bmode = bmode
 	if !emit {
 		w.tr = &tracer{f: nil, w: bufio.NewWriter(io.Discard)}
 	}
@@ -590,6 +605,8 @@ func c13RunCase(t *testing.T, a *chain.App, base sdk.Context, tr *tracer, r *rng
 			amt := sdk.NewInt(int64(1+r.intn(9)) * 1000000000)
 			if r.chance(25) {
 				amt = c13Huge.MulRaw(3)
+			} else if bmode {
+				amt = amt.MulRaw(10) // the refund needs 20 163 520 000 ucmst in the collector
 			}
 			fund(t, a, w.ctx, u, sdk.NewCoins(sdk.NewCoin(denom[as], amt)))
 			w.tr.p("fund %d %d %s", ui, as, amt)
@@ -609,6 +626,15 @@ func c13RunCase(t *testing.T, a *chain.App, base sdk.Context, tr *tracer, r *rng
 		return
 	case 3:
 		w.c13DirectedV2English(false)
+		return
+	case 4:
+		w.c13DirectedIterate()
+		return
+	case 5:
+		w.c13DirectedEsm()
+		return
+	case 6:
+		w.c13DirectedRefund()
 		return
 	}
 	// mostly-valid setup prefix: lookup tables, whitelists, reward whitelists
@@ -639,7 +665,11 @@ func c13RunCase(t *testing.T, a *chain.App, base sdk.Context, tr *tracer, r *rng
 		w.c13Obs()
 	}
 	for i := 0; i < nops; i++ {
-		w.c13RandomOp(r, stage)
+		if w.bmode && r.chance(22) {
+			w.c13BOp(r)
+		} else {
+			w.c13RandomOp(r, stage)
+		}
 		w.c13Obs()
 	}
 }
@@ -658,6 +688,6 @@ func TestC13(t *testing.T) {
 		if ci < 3 {
 			directed = ci + 1
 		}
-		c13RunCase(t, a, base, tr, r, ci, only < 0 || only == ci, directed, apps, assets, denom, ep)
+		c13RunCase(t, a, base, tr, r, ci, only < 0 || only == ci, directed, false, apps, assets, denom, ep)
 	}
 }
